@@ -395,8 +395,284 @@ def c06(ctx):
     return _inplace(ctx, "C06", True)
 
 
+# ------------------------------------------------------------------ C11: `bita info` reports what was requested
+
+def c11(ctx):
+    t0 = time.time()
+    bita = ctx["bita"]
+    root = tempfile.mkdtemp(prefix="verif-c11-")
+    viol = Viol("c11")
+    source = pattern(700, 5)
+    src = os.path.join(root, "src.bin")
+    with open(src, "wb") as f:
+        f.write(source)
+    mdfile = os.path.join(root, "md.bin")
+    with open(mdfile, "wb") as f:
+        f.write(bytes(range(256)) + b"tail")
+    cases = []
+    for hl in (4, 31, 64):
+        for comp, lvl, cname in (("none", None, "None"), ("brotli", 3, "Brotli (level 3)"), ("brotli", 11, "Brotli (level 11)"), ("zstd", 5, "zstd (level 5)"), ("lzma", 2, "LZMA (level 2)")):
+            for ch in ("fixed", "rollsum", "buzhash"):
+                cases.append((hl, comp, lvl, cname, ch))
+    distinct = set()
+    samples = []
+
+    def one(i):
+        hl, comp, lvl, cname, ch = cases[i]
+        arc = os.path.join(root, f"a{i}.cba")
+        cmd = [bita, "compress", "--hash-length", str(hl), "--compression", comp]
+        if lvl is not None:
+            cmd += ["--compression-level", str(lvl)]
+        expect = {"Chunk hash length": f"{hl} bytes", "Chunk compression": cname, "Source size": f"{len(source)} bytes",
+                  "Source checksum": hashlib.blake2b(source, digest_size=64).hexdigest()}
+        if ch == "fixed":
+            cmd += ["--fixed-size", "96B"]
+            expect.update({"Chunking algorithm": "Fixed Size", "Fixed chunk size": "96 bytes"})
+        else:
+            cmd += ["--hash-chunking", "RollSum" if ch == "rollsum" else "BuzHash", "--rolling-window-size", "12B", "--min-chunk-size", "20B", "--avg-chunk-size", "64B", "--max-chunk-size", "300B"]
+            expect.update({"Chunking algorithm": "RollSum" if ch == "rollsum" else "BuzHash", "Rolling hash window size": "12 bytes",
+                           "Chunk minimum size": "20 bytes", "Chunk maximum size": "300 bytes"})
+        md = []
+        if i % 3 == 0:
+            cmd += ["--metadata-value", "zeta", "1", "--metadata-file", "alpha", mdfile]
+            md = ["alpha(260)", "zeta(1)"]
+        expect["Metadata"] = ", ".join(md) if md else "None"
+        r = sh(cmd + ["-i", src, arc])
+        detail = {"hash_len": hl, "compression": cname, "chunker": ch, "metadata": md}
+        if r.returncode != 0:
+            detail["stderr"] = r.stderr.decode()[-300:]
+            viol.add("valid-compress-failed", detail)
+            return None
+        with open(arc, "rb") as f:
+            ab = f.read()
+        dict_size = int.from_bytes(ab[6:14], "little")
+        hdr_len = 14 + dict_size + 72
+        expect["Header checksum"] = ab[hdr_len - 64:hdr_len].hex()
+        expect["Archive size"] = f"{len(ab)} bytes"
+        if hashlib.blake2b(ab[:hdr_len - 64], digest_size=64).digest() != ab[hdr_len - 64:hdr_len]:
+            viol.add("header-checksum-wrong", detail)
+        r = sh([bita, "info", arc])
+        if r.returncode != 0:
+            viol.add("info-failed", detail)
+            return None
+        got = {}
+        for line in r.stdout.decode().splitlines():
+            if ":" in line:
+                k, v = line.split(":", 1)
+                got[k.strip()] = v.strip()
+        bad = {k: (got.get(k), v) for k, v in expect.items() if got.get(k) != v and not (k == "Chunk maximum size" and got.get(k) is None)}
+        # sizes >= 1024 are printed in KiB etc.; all expected values here are < 1024 except the archive size
+        if "Archive size" in bad and not got.get("Archive size", "").endswith("bytes"):
+            bad.pop("Archive size")
+        if bad:
+            detail["reported_vs_expected"] = bad
+            viol.add("info-reports-different-values", detail)
+        if md:
+            r = sh([bita, "info", "--metadata-key", "alpha", arc])
+            if r.returncode != 0 or r.stdout != bytes(range(256)) + b"tail":
+                viol.add("metadata-value-not-returned-verbatim", detail)
+        return (hl, cname, ch, bool(md))
+
+    with ThreadPoolExecutor(max_workers=16) as ex:
+        for k in ex.map(one, range(len(cases))):
+            if k:
+                distinct.add(k)
+                if len(samples) < 3:
+                    samples.append({"hash_len": k[0], "compression": k[1], "chunker": k[2], "metadata": k[3]})
+    shutil.rmtree(root, ignore_errors=True)
+    cov = {"evaluations": len(cases), "distinct_nontrivial": len(distinct), "exhaustive": True, "samples": samples,
+           "rule": "real binary: hash length {4,31,64} x {none, brotli 3/11, zstd 5, lzma 2} x {fixed, rollsum, buzhash} (+ binary/str metadata on every 3rd): `bita info` must report exactly the requested hash length, compression and level, chunker parameters, metadata keys with sizes, the true source size and Blake2b-512, the stored header checksum (recomputed here) and the file length; --metadata-key returns the value verbatim"}
+    return result(ctx["pid"], "exploration", cov, viol, t0, ["A5"])
+
+
+# ------------------------------------------------------------------ C12: file vs pipe, buffers, repeated runs
+
+def c12(ctx):
+    t0 = time.time()
+    bita = ctx["bita"]
+    thorough = ctx["tier"] == "thorough"
+    root = tempfile.mkdtemp(prefix="verif-c12-")
+    viol = Viol("c12")
+    groups = []
+    for sname, sb in (("dup-words", words("ABACADAB") * 3), ("pattern", pattern(5000, 9)), ("empty", b""), ("zeros", b"\0" * 3000)):
+        for cname, cargs in (("fixed", ["--fixed-size", "64B"]), ("rollsum", ["--hash-chunking", "RollSum", "--rolling-window-size", "16B", "--min-chunk-size", "32B", "--avg-chunk-size", "64B", "--max-chunk-size", "256B"]),
+                             ("buzhash", ["--hash-chunking", "BuzHash", "--rolling-window-size", "8B", "--min-chunk-size", "16B", "--avg-chunk-size", "32B", "--max-chunk-size", "128B"])):
+            for pname, pargs in (("none", ["--compression", "none"]), ("brotli", ["--compression", "brotli"])):
+                groups.append((sname, sb, cname, cargs, pname, pargs))
+    reps = 6 if thorough else 3
+    runs = 0
+    samples = []
+    distinct = set()
+
+    def one(gi):
+        sname, sb, cname, cargs, pname, pargs = groups[gi]
+        d = os.path.join(root, f"g{gi}")
+        os.makedirs(d)
+        src = os.path.join(d, "src.bin")
+        with open(src, "wb") as f:
+            f.write(sb)
+        seen = {}
+        n = 0
+        for buffers in (1, 2, 3, 8, 64):
+            for inp in ("file", "stdin"):
+                for rep in range(reps):
+                    arc = os.path.join(d, f"a-{buffers}-{inp}-{rep}.cba")
+                    cmd = [bita, "compress", "--buffered-chunks", str(buffers)] + cargs + pargs
+                    r = sh(cmd + (["-i", src, arc] if inp == "file" else [arc]), stdin_data=None if inp == "file" else sb)
+                    n += 1
+                    if r.returncode != 0:
+                        viol.add("valid-compress-failed", {"source": sname, "chunker": cname, "compression": pname, "buffers": buffers, "input": inp, "stderr": r.stderr.decode()[-200:]})
+                        continue
+                    with open(arc, "rb") as f:
+                        h = hashlib.sha256(f.read()).hexdigest()
+                    seen.setdefault(h, f"buffers={buffers} input={inp} run={rep}")
+                    os.remove(arc)
+        if len(seen) > 1:
+            viol.add("archive-differs-between-runs", {"source": sname, "chunker": cname, "compression": pname, "variants": list(seen.values())})
+        return n, (sname, cname, pname), list(seen)[:1]
+
+    with ThreadPoolExecutor(max_workers=16) as ex:
+        for n, key, h in ex.map(one, range(len(groups))):
+            runs += n
+            distinct.add((key, tuple(h)))
+            if len(samples) < 3:
+                samples.append({"source": key[0], "chunker": key[1], "compression": key[2], "archive_sha256": h})
+    shutil.rmtree(root, ignore_errors=True)
+    cov = {"evaluations": runs, "distinct_nontrivial": len(distinct), "groups": len(groups), "exhaustive": True, "samples": samples,
+           "rule": "real binary on the real multi-thread runtime: for each of 24 (source, chunker, compression) groups the archive from buffered-chunks {1,2,3,8,64} x input {file, pipe} x 3 (thorough 6) repeated runs must be one byte string; non-trivial = distinct (group, archive) pairs"}
+    return result(ctx["pid"], "exploration", cov, viol, t0, ["A5: repeated real runs sample the OS scheduler; the exhaustive schedule coverage is the in-process gate explorer's"])
+
+
+# ------------------------------------------------------------------ C13: write log of the real binary (strace)
+
+def c13(ctx):
+    t0 = time.time()
+    bita = ctx["bita"]
+    root = tempfile.mkdtemp(prefix="verif-c13-")
+    viol = Viol("c13")
+    cases = []
+    for lay in LAYOUTS:
+        cases.append((lay, "in-place", None))
+        cases.append((lay, "new-file", None))
+    for seedw in ("B-C", "DCBA", "--", "A"):
+        cases.append((("seeded-" + seedw, "ABCDAB", ""), "new-file", seedw))
+        cases.append((("seeded-inplace-" + seedw, "ABCDAB", "-B-"), "in-place", seedw))
+    cases.append((("force-over-existing", "ABC", "ABXXXXXXXXXX"), "force", None))
+    distinct = set()
+    samples = []
+    cov = {"writes_observed": 0, "in_place_locations": 0}
+
+    def one(i):
+        (name, s, p), kind, seedw = cases[i]
+        d = os.path.join(root, f"c{i}")
+        os.makedirs(d)
+        source, prior = words(s), words(p, 3)
+        src, arc, out = os.path.join(d, "src.bin"), os.path.join(d, "a.cba"), os.path.join(d, "out.bin")
+        with open(src, "wb") as f:
+            f.write(source)
+        r = sh([bita, "compress", "--fixed-size", "4B", "--compression", "none", "-i", src, arc])
+        if r.returncode != 0:
+            raise RuntimeError("compress failed")
+        flags = []
+        in_place = set()
+        if kind == "in-place":
+            with open(out, "wb") as f:
+                f.write(prior)
+            flags = ["--seed-output"]
+            in_place = {j for j in range(0, len(source), 4) if prior[j:j + 4] == source[j:j + 4] and len(prior[j:j + 4]) == 4}
+        elif kind == "force":
+            with open(out, "wb") as f:
+                f.write(prior)
+            flags = ["-f"]
+        if seedw is not None:
+            sp = os.path.join(d, "seed.bin")
+            with open(sp, "wb") as f:
+                f.write(words(seedw, 5))
+            flags += ["--seed", sp]
+        log = os.path.join(d, "trace.log")
+        if kind == "new-file":
+            open(out, "wb").close()  # strace -P needs an existing path; an empty file opened with -f... use seed-output on empty file
+            flags = flags + ["--seed-output"] if "--seed-output" not in flags else flags
+        r = sh(["strace", "-f", "-qq", "-s", "100000", "-P", out, "-e", "trace=lseek,write,read,pwrite64,pread64,ftruncate,truncate", "-o", log,
+                bita, "clone"] + flags + [arc, out])
+        detail = {"case": name, "source": s, "prior": p, "kind": kind, "seed": seedw}
+        if r.returncode != 0:
+            detail["stderr"] = r.stderr.decode()[-300:]
+            viol.add("valid-clone-failed", detail)
+            return None
+        if open(out, "rb").read() != source:
+            viol.add("success-with-wrong-output", detail)
+            return None
+        pos = 0
+        written = set()
+        nwrites = 0
+        for line in open(log, errors="replace"):
+            line = line.split(None, 1)[1] if line[:1].isdigit() else line
+            if line.startswith("lseek("):
+                if "= " in line and "SEEK_SET" in line:
+                    pos = int(line.rsplit("= ", 1)[1].split()[0])
+                elif "SEEK_END" in line or "SEEK_CUR" in line:
+                    pos = int(line.rsplit("= ", 1)[1].split()[0])
+            elif line.startswith("read("):
+                n = int(line.rsplit("= ", 1)[1].split()[0])
+                pos += max(n, 0)
+            elif line.startswith("write("):
+                n = int(line.rsplit("= ", 1)[1].split()[0])
+                nwrites += 1
+                o = pos
+                pos += max(n, 0)
+                data = source[o:o + n]
+                cls = None
+                if o + n > len(source):
+                    cls = "write-beyond-source-length"
+                elif o % 4 != 0 or n != 4 and not (o + n == len(source)):
+                    cls = "write-not-a-source-chunk-at-its-offset"
+                elif o in in_place:
+                    cls = "in-place-location-rewritten"
+                elif o in written:
+                    cls = "location-written-twice"
+                else:
+                    # content check: strace prints the bytes; compare via the escaped literal
+                    lit = line[line.index('"') + 1:line.rindex('"')]
+                    try:
+                        raw = bytes(lit, "latin-1").decode("unicode_escape").encode("latin-1")
+                    except Exception:
+                        raw = None
+                    if raw is not None and raw != data:
+                        cls = "write-not-a-source-chunk-at-its-offset"
+                if cls:
+                    detail["write_offset"] = o
+                    detail["write_len"] = n
+                    viol.add(cls, detail)
+                    return None
+                written.add(o)
+            elif line.startswith("pwrite64("):
+                viol.add("unexpected-pwrite", detail)
+                return None
+            elif line.startswith("ftruncate("):
+                size = int(line.split(",")[1].split(")")[0])
+                if size != len(source):
+                    detail["ftruncate"] = size
+                    viol.add("resized-to-wrong-length", detail)
+                    return None
+        return (name, kind, seedw), nwrites, len(in_place)
+
+    with ThreadPoolExecutor(max_workers=8) as ex:
+        for k in ex.map(one, range(len(cases))):
+            if k:
+                distinct.add(k[0])
+                cov["writes_observed"] += k[1]
+                cov["in_place_locations"] += k[2]
+                if len(samples) < 4:
+                    samples.append({"case": k[0][0], "kind": k[0][1], "seed": k[0][2], "writes": k[1], "in_place_locations": k[2]})
+    shutil.rmtree(root, ignore_errors=True)
+    cov.update({"evaluations": len(cases), "distinct_nontrivial": len(distinct), "exhaustive": True, "samples": samples,
+                "rule": "real binary under strace -P <output> (lseek/read/write/ftruncate): 11 prior layouts x {in place, onto an empty file} + seeded clones + forced overwrite; offsets are reconstructed from the lseek/read/write sequence; oracle: every write(2) on the output is one source chunk at its source offset, no location twice, no location the prior held in place, nothing beyond the source length, ftruncate to exactly the source length"})
+    return result(ctx["pid"], "exploration", cov, viol, t0, ["A5; FixedSize(4) archives so that the expected chunking of the prior output is the aligned 4-byte grid"])
+
+
 def replay(ctx, detail):
-    fn = {"c01": c01, "c02": c02, "c03": c03, "c06": c06}[detail.get("function", "c01")]
+    fn = {"c01": c01, "c02": c02, "c03": c03, "c06": c06, "c11": c11, "c12": c12, "c13": c13}[detail.get("function", "c01")]
     res = fn(dict(ctx, tier="quick"))
     return bool(res["violation_classes"])
 
@@ -406,5 +682,5 @@ if __name__ == "__main__":
     import sys
     fn = sys.argv[1]
     tier = sys.argv[2] if len(sys.argv) > 2 else "quick"
-    r = {"c01": c01, "c02": c02, "c03": c03, "c06": c06}[fn]({"pid": fn.upper(), "tier": tier, "seed": 0, "bita": "/verif/build/bita/release/bita", "vh": "", "verif": "/verif", "build": "/verif/build"})
+    r = {"c01": c01, "c02": c02, "c03": c03, "c06": c06, "c11": c11, "c12": c12, "c13": c13}[fn]({"pid": fn.upper(), "tier": tier, "seed": 0, "bita": "/verif/build/bita/release/bita", "vh": "", "verif": "/verif", "build": "/verif/build"})
     print(json.dumps(r, indent=1)[:5000])
